@@ -418,7 +418,10 @@ class Gen:
         if nested and shape == 'fromsub':
             shape = 'plain'
         st['shape'] = shape
-        alias = iter(f'c{i}' for i in range(100))
+        # aliases are unique over the whole statement: a subquery column must not collide with an alias of the outer query
+        # (GROUP BY / ORDER BY names resolve to target names first)
+        self.alias_base = getattr(self, 'alias_base', 0) + 100
+        alias = iter(f'c{self.alias_base + i}' for i in range(100))
         if shape == 'star':
             st['star'] = True
             self._order(st, tbl, depth, [(X(c, dict(tbl.cols)[c], col=True), None) for c in tbl.wildcard], False)
